@@ -43,6 +43,7 @@ DECODE_T = R("decode_t", "decode_t.cfg", expect_ops=["decode_wire"], timeout=300
 
 SIG_Q = R("sig_q", "sig_q.cfg", rounds=3, expect_ops=["add_signature", "sign", "forge_signed", "obs_verify", "elide_set"])
 REMOVE_Q = R("remove_q", "remove_q.cfg", rounds=2, expect_ops=["remove_assertion", "replace_assertion", "replace_subject", "assertion_with_digest"])
+REELIDE_Q = R("reelide_q", "reelide_q.cfg", rounds=2, expect_ops=["elide", "elide_set", "unelide"])
 SIG_Q2 = R("sig_q2", "sig_q2.cfg", rounds=2, expect_ops=["add_signature", "sign", "obs_verify", "elide_set"])
 SIG_T = R("sig_t", "sig_t.cfg", rounds=2, timeout=3000, expect_ops=["add_signature", "sign", "forge_signed", "obs_verify", "elide_set", "uncompress", "encode_decode"])
 RECIPIENT_Q = R("recipient_q", "recipient_q.cfg", rounds=4, expect_ops=["encrypt_subject_to_recipients", "encrypt_to_recipient", "seal", "unseal", "add_recipient", "share_with", "decrypt_subject_to_recipient", "decrypt_to_recipient"],
@@ -84,12 +85,12 @@ PLAN = {
         thorough=[CORE_ALL3, CORE_T, OBS_Q, OBS_Q2, REMOVE_Q, TRACE_WALK_T, TRACE_ORDER],
     ),
     "C02": dict(
-        rule="every shape of <= 5 elements x every target subset (<= 3 digests incl. an absent one) x both modes x {elide, encrypt, compress} and the whole-envelope calls, then a second obscuring call on the result; digests at every surviving position compared with the specification's terms",
-        quick=[OBS_Q, OBS_Q2, OBS_Q3],
+        rule="every shape of <= 5 elements x every target subset (<= 3 digests incl. an absent one) x both modes x {elide, encrypt, compress} and the whole-envelope calls, then a second obscuring call (also on nodes: reelide_q = progressive redaction of nodes, node-subject nodes, decorated assertions) on the result; digests at every surviving position compared with the specification's terms",
+        quick=[OBS_Q, OBS_Q2, OBS_Q3, REELIDE_Q],
     ),
     "C03": dict(
         rule="as C02; the expected tree says exactly which positions are hidden, the serialized bytes must equal the evaluated wire term (no residue), unelide with every register pair",
-        quick=[OBS_Q, OBS_Q2],
+        quick=[OBS_Q, OBS_Q2, REELIDE_Q, OBS_Q3],
     ),
     "C04": dict(
         rule="all mutating action families from the empty register file, depth <= 3 (all families) and <= 4 (construct/assertions/wrap); serialized bytes of every result must equal the evaluated wire term whose node arrays are sorted by the real digest bytes",
